@@ -25,6 +25,12 @@ CLAIMED = {
              "implementation-side oracle comparing full tree dumps and allocator free counts around every failing request.",
         design_ref="DESIGN.md 5/C09", note="trusted: Lean kernel, reference model, harness; resource exhaustion (NOSPC) not yet generated",
         technique="Lean 4 proof + correspondence + dump comparison around failures"),
+    "C10": dict(category="proof",
+        text="Lean theorems: the on-disk codecs (inode, directory entry, handle) are bijective on well-formed values; the inode-cache protocol keeps the cache equal to the logical "
+             "disk at every quiescent point for every sequence of loads, in-place modifications, evictions, commits and aborts, so a rebuilt server reads the same. Ties: codec "
+             "correspondence; coherence oracle at quiescent points (cached inodes, name caches, allocators vs logical disk); API dumps of running vs cleanly restarted vs recovered-from-image server.",
+        design_ref="DESIGN.md 5/C10", note="trusted: Lean kernel, hand-written codec and cache-protocol models, harness (reads private fields by reflection)",
+        technique="Lean 4 proof (codec bijection, cache-protocol invariant) + correspondence + restart/recovery dump comparison"),
     "C11": dict(category="proof",
         text="PARTIAL by nature: Lean theorems for the failure points a model can contain (64-bit wrap-around guards exact, block indices in range, XDR decoder total and "
              "non-amplifying, the reference model answers every request) + correspondence with hostile arguments + RPC-level message fuzzing of all 28 procedures as "
